@@ -84,6 +84,13 @@ def check_elements(part, zs):
             if e.covalent_radius != row[2] or e.vdw_radius != row[3]:
                 part.fail("radii:%d" % z, "radius properties of Z=%d disagree with the table" % z, case)
             part.outcome((rname, z % 5))
+            # the caller scribbles on the object it was handed (custom radii are a common use): every later lookup, by any route, must
+            # still return the tabulated data (the next routes of this loop, and the vectorised helpers below, are those lookups)
+            for attr, junk in (("vdw", -1.0), ("cov", -3.0), ("mass", -2.0), ("name", "scribbled"), ("symbol", "Zz")):
+                try:
+                    setattr(e, attr, junk)
+                except Exception:
+                    pass
         # vectorised helpers
         arr = np.array([z, 1, z])
         try:
